@@ -164,6 +164,48 @@ def match(ctx: Any) -> List[Ob]:
                     okc = not touched
                     want = set()
                 obs.append(ob(R, f, f'{kname} record owned by {owner} name, expired={expired}', f'fields written: {sorted(want) if want else "none"}', okc, f'touched {sorted(touched)}'))
+    # an SRV record that moves the instance to another host: both address lists are replaced (assigned afresh from the
+    # cache records of the new host), never merged into -- else addresses of the previous host survive and count as known
+    cfg = cfg_of(f.node)
+    info_cls = prog.cls(INFO)
+
+    def resets(g: FuncInfo, field: str, depth: int = 2) -> bool:
+        """every path through g assigns self.<field>"""
+        gm = g.params[0]
+        gc = cfg_of(g.node)
+
+        def hit(n: Any) -> bool:
+            if n.kind == 'stmt' and any(self_attr(t, gm) == field and isinstance(st, ast.Assign) for t, st in attr_stores(n.ast)):
+                return True
+            if depth > 0:
+                for c in n.calls():
+                    if isinstance(c.func, ast.Attribute) and self_attr(c.func, gm):
+                        h = info_cls.find_method(c.func.attr)
+                        if h is not None and h is not g and resets(h, field, depth - 1):
+                            return True
+            return False
+
+        return gc.must_pass_before_exit(gc.entry, hit) is None
+
+    changed = [t for t in cfg.nodes if t.kind == 'test' and isinstance(t.ast, ast.Compare) and len(t.ast.ops) == 1 and isinstance(t.ast.ops[0], (ast.NotEq, ast.Eq)) and any(self_attr(x, me) == 'server_key' for x in (t.ast.left, t.ast.comparators[0])) and any(isinstance(x, ast.Name) for x in (t.ast.left, t.ast.comparators[0]))]
+    if len(changed) != 1:
+        raise AnalysisError('anchor vanished: the server-changed test of the SRV arm')
+    ct = changed[0]
+    arm = isinstance(ct.ast.ops[0], ast.NotEq)
+    for field in ('_ipv4_addresses', '_ipv6_addresses'):
+        def hit_f(n: Any, field: str = field) -> bool:
+            if n.kind == 'stmt' and any(self_attr(t, me) == field and isinstance(st, ast.Assign) for t, st in attr_stores(n.ast)):
+                return True
+            for c in n.calls():
+                if isinstance(c.func, ast.Attribute) and self_attr(c.func, me):
+                    h = info_cls.find_method(c.func.attr)
+                    if h is not None and h is not f and resets(h, field):
+                        return True
+            return False
+
+        starts = [s_ for s_, lab in ct.succ if lab is arm]
+        leak = [w for s_ in starts for w in [None if hit_f(s_) else cfg.path_avoiding(s_, lambda n: n is cfg.exit, hit_f, skip_start=False)] if w is not None]
+        obs.append(ob(R, f, ct.ast, f'when an SRV record points the instance at another host, `{field}` is replaced by the cached addresses of the new host (not merged into)', bool(starts) and not leak, f'a path from the server-changed arm reaches the end of the function without assigning self.{field}' if leak else ''))
     return obs
 
 
@@ -249,6 +291,18 @@ def bound(ctx: Any) -> List[Ob]:
     got = {strip_ret(t) for t in oc}
     rets = {x[1] for t in oc for x in t if isinstance(x, tuple) and x[0] == 'ret'}
     obs.append(ob(R, f, 'if self._load_from_cache(zc, now): return True', 'when the cache suffices the lookup succeeds without sending, waiting or listening', got == {('CACHE',)} and rets == {True}, f'{sorted(got)} returns {rets}'))
+    # reading the cache and subscribing to new records is one atomic step: no suspension between them (a record that arrives
+    # while the task is suspended reaches the cache but not this lookup), and the time the cache is read at is current
+    aw = [n for n in cfg.nodes if any(isinstance(x, ast.Await) for e in n.exprs() for x in ast.walk(e))]
+    loads = cfg.nodes_calling('_load_from_cache')
+    listens = cfg.nodes_calling('async_add_listener')
+    if not loads or not listens:
+        raise AnalysisError('anchor vanished: cache load / listener registration in async_request')
+    gap = [a for a in aw if a not in loads and any(cfg.can_reach(l_, a) for l_ in loads) and any(cfg.path_avoiding(a, lambda n, t=t: n is t, lambda n: n in loads) is not None for t in listens)]
+    obs.append(ob(R, f, gap[0].ast if gap else 'self._load_from_cache(zc, now) ... zc.async_add_listener(self, None)', 'the lookup does not suspend between reading the cache and starting to listen (nothing that arrives in between is lost)', not gap, f'the wait at line {gap[0].line} lies between the cache read and the listener registration' if gap else ''))
+    now_defs = [n for n in cfg.nodes if n.kind == 'stmt' and isinstance(n.ast, ast.Assign) and norm(n.ast.targets[0]) == roles['now'] and not n.in_loop]
+    stale_now = [a for a in aw if any(cfg.can_reach(d, a) for d in now_defs) and any(cfg.path_avoiding(a, lambda n, t=t: n is t, lambda n: n in now_defs) is not None for t in loads)]
+    obs.append(ob(R, f, stale_now[0].ast if stale_now else 'now = current_time_millis(); self._load_from_cache(zc, now)', 'the time handed to the cache read (expiry filter) and used for the deadline is read after the last suspension before it', bool(now_defs) and not stale_now))
     # timeout test precedes send and wait inside the loop
     loop_t = [n for n in cfg.nodes if n.kind == 'loop_test']
     if len(loop_t) != 1:
